@@ -183,3 +183,16 @@ Proof.
   repeat split; try lra; cbn [o_pos vz]; try lra.
   rewrite zhelix_move_rot. cbn zeta. cbn [o_pos vz]. unfold del_phi. lra.
 Qed.
+
+(** the hypotheses of [zhelix_move_exact] are satisfiable (the configuration of
+    the repository's own stepper test: start at (R,0,0) moving along +y) *)
+Example helix_exact_hyp_satisfiable :
+  exists (kappa radius : R) (beg rhs : ode R),
+    kappa <> 0 /\ radius = - / kappa /\ norm (o_pos rhs) = 1 /\
+    vx (o_pos beg) = - vy (o_pos rhs) / kappa /\ vy (o_pos beg) = vx (o_pos rhs) / kappa.
+Proof.
+  exists (-1), 1, (Ode (V3 1 0 0) (V3 0 1 0)), (Ode (V3 0 1 0) (V3 0 0 0)).
+  cbn [o_pos vx vy vz]. repeat split; try lra; try (field; lra).
+  unfold norm. numR. rewrite dot_R. cbn [vx vy vz].
+  replace (0 * 0 + 1 * 1 + 0 * 0) with 1 by ring. apply sqrt_1.
+Qed.
